@@ -640,6 +640,8 @@ type Checker struct {
 	m2g     map[string]common.Hash
 	nOracle map[string]int
 	nProbes int
+	nReal   int
+	maxReal int
 	nFam    map[string]int
 }
 
@@ -727,6 +729,11 @@ func (k *Checker) runProgram(class string, prog []Op, withModel bool) {
 						content, suffix = content[:i], content[i:]
 					}
 					k.rootCorr(cas, root, content)
+					if k.nReal < k.maxReal || strings.HasPrefix(class, "directed") {
+						// the real Merkle root: Go's hash vs C10's specification root of the model content
+						k.nReal++
+						c.Correspond("IntermediateRoot/Commit root hash~StateRoot.state_root keccak256 (st_trie)", cas, vh.Hex(root[:]), k.m.Ask(fmt.Sprintf("realroot %d", o.S)))
+					}
 					if o.K == "commit" {
 						// committed: the full content is readable -> compare it literally
 						c.Correspond("Commit, reopen, read back~commit content", cas, renderCommitted(r.db, root)+suffix, content+fmt.Sprintf(" %d", len(r.commits)-1))
@@ -1031,6 +1038,76 @@ func (k *Checker) checkNeutral(prog []Op, i, j, sid int, ptxt string) {
 	}
 }
 
+// ---- core/state/managed_state.go: nonce management on a copied StateDB (correspondence only)
+func (k *Checker) runManaged(r *vh.RNG) {
+	c := k.c
+	run := newRunner()
+	k.m.Ask("reset")
+	pre := prelude(r)
+	pre = genBody(r, len(pre)+r.Intn(12), pre)
+	for _, o := range pre {
+		if o.S != 0 && o.K != "reopen" {
+			continue
+		}
+		if o.K == "copy" || (o.K == "reopen" && o.Dst != 0) {
+			continue
+		}
+		ans, _ := run.apply(o)
+		k.m.Ask(o.modelLine())
+		if run.dead || ans == "panic" {
+			return
+		}
+	}
+	ms := state.ManageState(run.sts[0])
+	if got := k.m.Ask("manage 0 0"); got != "ok" {
+		c.Correspond("ManageState~manage_state", progString(pre), "ok", got)
+		return
+	}
+	mobs := func() string {
+		p := make([]string, len(addrs))
+		for i, a := range addrs {
+			ok, ns, nn := ms.VerifManagedAccount(addrOf(a))
+			if !ok {
+				p[i] = "M" + qi(a) + ":-"
+				continue
+			}
+			bits := ""
+			for _, b := range nn {
+				bits += b01(b)
+			}
+			p[i] = "M" + qi(a) + ":" + qu(ns) + "/" + bits
+		}
+		return strings.Join(p, " ")
+	}
+	txt := progString(pre) + " | manage"
+	nonces := []string{"0", "1", "2", "3", "5", "7", "18446744073709551615"}
+	for i := 0; i < 18; i++ {
+		a := addrs[r.Intn(len(addrs))]
+		n := nonces[r.Intn(len(nonces))]
+		var line, got string
+		switch r.Intn(6) {
+		case 0, 1:
+			line, got = fmt.Sprintf("newnonce %d", a), "n "+qu(ms.NewNonce(addrOf(a)))
+		case 2:
+			line, got = fmt.Sprintf("getnonce %d", a), "n "+qu(ms.GetNonce(addrOf(a)))
+		case 3:
+			ms.SetNonce(addrOf(a), bigOf(n).Uint64())
+			line, got = fmt.Sprintf("setnonce %d %s", a, n), "ok"
+		case 4:
+			ms.RemoveNonce(addrOf(a), bigOf(n).Uint64())
+			line, got = fmt.Sprintf("removenonce %d %s", a, n), "ok"
+		default:
+			line, got = fmt.Sprintf("has %d", a), b01(ms.HasAccount(addrOf(a)))
+		}
+		txt += " " + line
+		c.Correspond("ManagedState method result~ManagedModel", txt, got, k.m.Ask("mop 0 "+line))
+		c.Correspond("ManagedState accounts (nstart, nonces)~ms_accts", txt, mobs(), k.m.Ask("mobs 0 "+csv(addrs)))
+		c.Correspond("ManagedState inner StateDB getters+hidden state~ms_db obs", txt, fullObs(ms.StateDB), k.m.Ask("obs 1000 "+obsReq))
+		c.Count("managed-op")
+	}
+	c.Eval("managed-state", txt)
+}
+
 func contS(w int64) string {
 	if w == 0 {
 		return ""
@@ -1279,7 +1356,7 @@ func main() {
 	c.Res.Rule = "a case is one history: prelude (accounts incl. pre-existing EMPTY ones, a contract with code+storage, the ripemd address, a suicided account; Commit(false); reopen) " +
 		"followed by 25-60 random ops over 6 addresses x 4 slots on up to 4 StateDBs (writes, nested Snapshot, RevertToSnapshot to any live id, Finalise/IntermediateRoot/Commit(true|false), Copy, reopen at any committed root); " +
 		"after EVERY op all getters + hidden state (dirty set, onDirty armed, deleted, touched, dirtyStorage, journal length, revisions) are compared with the model; non-trivial = contains at least one valid revert or finalise; distinct by op text"
-	k := &Checker{c: c, m: m, g2m: map[common.Hash]string{}, m2g: map[string]common.Hash{}, nOracle: map[string]int{}, nFam: map[string]int{}}
+	k := &Checker{c: c, m: m, g2m: map[common.Hash]string{}, m2g: map[string]common.Hash{}, nOracle: map[string]int{}, nFam: map[string]int{}, maxReal: c.Scale(250, 5000)}
 	// Keccak of the model is the hash the implementation uses
 	for _, x := range [][]byte{{}, {0x60, 0x01}, c.Rng.Bytes(137)} {
 		c.Correspond("crypto.Keccak256~Lib.Keccak.keccak256", vh.Hex(x), vh.Hex(crypto.Keccak256(x)), m.Ask("keccak "+vh.Hex(x)))
@@ -1328,6 +1405,9 @@ func main() {
 		if i < 3 {
 			c.Sample(map[string]string{"history": progString(p)})
 		}
+	}
+	for i := 0; i < c.Scale(40, 600); i++ {
+		k.runManaged(c.Rng.Fork())
 	}
 	for o, n := range k.nOracle {
 		c.Res.Distribution["oracle-"+o+"-evaluations"] = n
